@@ -52,6 +52,10 @@ class Compiler:
     def compile_block(self, state, block, start):
         addr = start
         data = b""
+        if _VERIF:
+            # serial number of this compile_block() call, so that trace entries can be grouped by block
+            self.verif_blocks = verif_block = getattr(self, "verif_blocks", 0) + 1
+            self.verif_trace.append(("block", state, block, start, verif_block))
 
         if state["context"] == "repeat" and "local_symbol_prefix" in state:
             # Labels cannot be defined inside '.repeat', so its body stays in the scope of the enclosing code
@@ -71,7 +75,7 @@ class Compiler:
                 if isinstance(insn, Instruction):
                     chunk = self.compile_insn(insn, state)
                     if _VERIF:
-                        self.verif_trace.append(("insn", state, insn, addr, chunk))
+                        self.verif_trace.append(("insn", state, insn, addr, chunk, verif_block))
                     if chunk is not None:
                         data += chunk
                         if isinstance(chunk, BaseDeferred):
@@ -82,7 +86,7 @@ class Compiler:
                 elif isinstance(insn, WordList):
                     chunk = self.compile_word_list(insn, insn.words, state)
                     if _VERIF:
-                        self.verif_trace.append(("words", state, insn, addr, chunk))
+                        self.verif_trace.append(("words", state, insn, addr, chunk, verif_block))
                     data += chunk
                     if isinstance(chunk, BaseDeferred):
                         addr += chunk.length()
@@ -101,7 +105,7 @@ class Compiler:
                         continue
 
                     if _VERIF:
-                        self.verif_trace.append(("label", state, insn, addr, None))
+                        self.verif_trace.append(("label", state, insn, addr, None, verif_block))
                     self.compile_label(insn, addr, state)
                     if not insn.local:
                         local_symbol_prefix = f".local{self.next_local_symbol_prefix}."
@@ -128,7 +132,7 @@ class Compiler:
 
                                 chunk = Deferred[bytes](fn)
                                 if _VERIF:
-                                    self.verif_trace.append(("skip", state, insn, addr, chunk))
+                                    self.verif_trace.append(("skip", state, insn, addr, chunk, verif_block))
                                 data += chunk
                                 if isinstance(chunk, BaseDeferred):
                                     addr += chunk.length()
